@@ -10,7 +10,7 @@
    [rerr s = true]: the read loop has recorded the failure (closeError ran). *)
 From Coq Require Import List ZArith Bool.
 Import ListNotations.
-From Goat Require Import Model.Client Proofs.ClientBase Proofs.ClientInv Proofs.ClientLog Proofs.ClientLive Proofs.ClientProps Proofs.ClientTerm Proofs.ClientAfter.
+From Goat Require Import Model.Client Proofs.ClientBase Proofs.ClientInv Proofs.ClientLog Proofs.ClientLive Proofs.ClientProps Proofs.ClientTerm Proofs.ClientAfter Proofs.ClientRoute Proofs.ClientNI.
 Open Scope Z_scope.
 
 (* (Q) settles: after the failure, in every quiescent state, a call none of whose threads the environment holds
@@ -74,6 +74,20 @@ Theorem C09_after_fails : forall ls1 s1 ls2 s2,
        (quiescent s2 = true -> call_pending k = false /\ (k_pc k = PRet \/ k_pc k = POpenFailed))).
 Proof. exact C09_after_l. Qed.
 Print Assumptions C09_after_fails.
+
+(* the VALUE of the transport's read error does not matter. The model is parametric in it (AFailRead carries no
+   value: the recorded error is the token EConn whatever Read failed with, io.EOF included; the stream loop turns it
+   into a status, never into io.EOF; that the real code is just as indifferent is CHECKED on every run for eight
+   error values - io.EOF, wrapped EOF, websocket-style EOF, ErrUnexpectedEOF, context errors, a status error - by
+   TestC09Errors, whose observations must equal the model's). In every run RecvMsg reports the clean end of the
+   stream (io.EOF, "completed with status OK") only if an envelope the call took carries a trailer with an OK
+   status (or none); so a read failure, after any prefix and without a trailer, never yields a successful end. *)
+Theorem C09_eof_not_success : forall ls s, lrun init ls = Some s ->
+  forall c k, nth_error (calls s) c = Some k ->
+    (In (EvRecvRet c (RErr EEof)) (log s) -> exists e, In e (taken c (log s)) /\ final_of e = Some EEof) /\
+    (In (EvHeaderRet c (inr EEof)) (log s) -> exists e, In e (taken c (log s)) /\ final_of e = Some EEof).
+Proof. exact C09_eof_not_success_l. Qed.
+Print Assumptions C09_eof_not_success.
 
 (* (T) no live-lock. [mu] (Proofs/ClientTerm.v) weighs the unread transport input (8 per envelope), the read loop
    (holding 8 > reading 1 > dead 0) and per call 5 x the rank of the call thread + the ranks of the stream loop and
